@@ -75,6 +75,9 @@ class Index:
             with open(path) as f:
                 src = f.read()
             self.trees[mod] = ast.parse(src, path)
+        self.functions = {}          # mod -> {name: FunctionDef} for module-level functions
+        for mod, tree in self.trees.items():
+            self.functions[mod] = {n.name: n for n in tree.body if isinstance(n, ast.FunctionDef)}
         for mod, tree in self.trees.items():
             ns = {}
             for node in tree.body:
@@ -409,10 +412,10 @@ class Analyzer:
         return kinds[0]
 
     # ---- helpers -----------------------------------------------------------------------------
-    def _bind_params(self, fn, call, caller_eval, entry=False):
+    def _bind_params(self, fn, call, caller_eval, entry=False, plain=False):
         """env for the callee. entry: parameters are ('param', name); else evaluated from the call site."""
         a = fn.args
-        names = [x.arg for x in a.posonlyargs + a.args][1:]
+        names = [x.arg for x in a.posonlyargs + a.args][(0 if plain else 1):]
         env = {}
         if entry:
             for n in names + [x.arg for x in a.kwonlyargs]:
@@ -488,6 +491,8 @@ class Analyzer:
         return self._write_plain(base, attr, node, mod)
 
     def _write_plain(self, base, attr, node, mod):
+        if isinstance(base, tuple) and base[0] == "shallow":
+            return                  # rebinding an attribute of a fresh shallow copy: the original keeps its own
         if base == SELF and getattr(self, "delegate", False) and not self.in_builder:
             self._emit("via:<receiver>", "rebind", attr, node, mod)
         elif base == SELF or base == SELFCOPY:
@@ -513,6 +518,8 @@ class Analyzer:
             return
         if cont in (SELF, SELFCOPY):
             raise ExtractError("%s: receiver itself mutated as a container" % _loc(mod, node))
+        if cont[0] == "shallow":
+            return                  # the copy itself used as a container: a new object
         if cont[0] == "attr":
             b = cont[1]
             if b == SELF and getattr(self, "delegate", False) and not self.in_builder:
@@ -540,6 +547,14 @@ class Analyzer:
         raise ExtractError("%s: in-place mutation through an unrecognised access path %r" % (_loc(mod, node), cont))
 
     # ---- running a function body -------------------------------------------------------------
+    def _run_plain(self, ctx, mod, fn, env, depth, stack):
+        """a module-level helper function called from a watched method: executed abstractly like an inlined method (no self)"""
+        if depth > MAX_INLINE_DEPTH:
+            raise ExtractError("inlining too deep at %s" % (stack,))
+        fr = _Frame(self, ctx, None, fn, env, depth, stack, mod, False, plain=True)
+        fr.block(_strip_doc(fn.body), cond=False)
+        return fr.rets
+
     def _run_fn(self, ctx, defc, fn, env, depth, stack, top=False):
         """execute fn's body abstractly. ctx: class whose MRO resolves self.m(); defc: class defining fn.
         Returns the list of abstract return values."""
@@ -552,10 +567,10 @@ class Analyzer:
 
 
 class _Frame:
-    def __init__(self, an, ctx, defc, fn, env, depth, stack, mod, top):
+    def __init__(self, an, ctx, defc, fn, env, depth, stack, mod, top, plain=False):
         self.an, self.ix = an, an.ix
         self.ctx, self.defc, self.fn, self.env, self.depth, self.stack, self.mod, self.top = ctx, defc, fn, env, depth, stack, mod, top
-        self.selfname = fn.args.args[0].arg if fn.args.args else None
+        self.selfname = fn.args.args[0].arg if (fn.args.args and not plain) else None
         self.rets = []
         self.mute = 0
 
@@ -580,6 +595,8 @@ class _Frame:
                     out += b.fields.get(e.attr, [OTHER])
                 elif b in (OTHER, ("none",)) or (isinstance(b, tuple) and b[0] == "callcopy"):
                     out.append(OTHER)
+                elif isinstance(b, tuple) and b[0] == "shallow":
+                    out.append(("attr", b[1], e.attr))      # the copy shares the original's attribute values
                 elif b == SELFCOPY:
                     out.append(("attr", SELFCOPY if getattr(self.an, "delegate", False) else SELF, e.attr))
                 else:
@@ -681,6 +698,24 @@ class _Frame:
             if clsq is not None:
                 av = self.an._ctor(clsq, e, self.ev)
                 return [av]
+            if f.id == "copy" and len(e.args) == 1 and not e.keywords and f.id not in self.env:
+                # copy.copy: a NEW object whose attributes still point to the original's values - rebinding an attribute of
+                # the copy is harmless, mutating one of its containers in place mutates the original's container
+                return [("shallow", v) if not (isinstance(v, Fresh) or v in (OTHER, ("none",))) else OTHER
+                        for v in self.ev(e.args[0])] or [OTHER]
+            helper = ix.functions.get(self.mod, {}).get(f.id)
+            if helper is not None and f.id not in self.env and f.id not in PURE_FUNCS and not helper.decorator_list:
+                if ("fn", self.mod, f.id) in self.stack:
+                    args_eval()
+                    return [OTHER]
+                env = self.an._bind_params(helper, e, self.ev, plain=True)
+                if self.mute:
+                    return [OTHER]
+                rets = self.an._run_plain(self.ctx, self.mod, helper, env, self.depth + 1, self.stack + [("fn", self.mod, f.id)])
+                out = []
+                for vals_, _ in rets:
+                    out += vals_
+                return _uniq(out) or [("none",)]
             vals = args_eval()
             if f.id in PURE_FUNCS or f.id in self.env:
                 return [OTHER]
